@@ -93,6 +93,23 @@ func checkSetLengthBookkeeping(p *Prog, r *Report, rule string) {
 			q := &pathQuery{discharge: func(in ssa.Instruction) bool { return in == second }}
 			trail, bad := q.find(first)
 			okDom := dominates(first, second)
+			// success means added: every nil return of the add function is dominated by the append. An early `return nil` (for an
+			// empty element list, say) reports success for a record that is not in the set - the other add paths do add it
+			nSucc, okSucc := 0, true
+			eachInstr(f, func(in ssa.Instruction) {
+				rt, ok := in.(*ssa.Return)
+				if !ok {
+					return
+				}
+				if isNil, has := retErrNil(rt); has && isNil {
+					nSucc++
+					if !dominates(app, in) {
+						okSucc = false
+					}
+				}
+			})
+			r.Check(nSucc > 0 && okSucc, rule, k+": success is returned only after the record was appended", p.instrPos(app), "every nil return is dominated by append(s.records, record)",
+				"the add function can return nil without having appended a record: for that input the add paths disagree on bytes, set length and number of records", true)
 			r.Check(!bad && okDom, rule, k+": length update paired with append of the same record", p.instrPos(st), "append(s.records, record) and length += record.GetRecordLength() happen together on every path",
 				"a path exists on which the record is appended but its length is not added (or vice versa), e.g. an error exit in between: GetSetLength() != 4 + sum of record lengths; path "+p.describePath(f, trail), true)
 		}
@@ -330,6 +347,7 @@ func runC16(p *Prog, r *Report, tier string) {
 	checkSetAccessors(p, r, "R-VALUE.set-accessors")
 	lengthAccounting(p, r, "R-CODEC.length")
 	checkMsgAssembly(p, r)
+	checkTemplateElementsEmpty(p, r, "R-EQUIV.template-empty")
 }
 
 func allocHasField(al *ssa.Alloc, field string) bool {
